@@ -14,6 +14,8 @@ for d in sorted(glob.glob(os.path.join(ROOT, "seeded", "*"))):
     keys = m.get("check", {}).get("violation_keys", [])
     ks = ", ".join(k if len(k) < 60 else k[:57] + "..." for k in keys[:3]) + (f" (+{len(keys) - 3})" if len(keys) > 3 else "")
     first = m.get("first_run_result")
+    if m.get("neutralised_by"):
+        first = (first or "caught as built") + "; NOW NEUTRALISED by fix " + m["neutralised_by"]
     rows.append(f"| {name} | {summ} | {'yes' if m.get('check', {}).get('caught') else '**NO**'} | {ks} | {first or 'caught as built'} |")
 print("| change | what it does | caught | violation keys | first run |")
 print("|---|---|---|---|---|")
